@@ -26,28 +26,28 @@ CLAIMED = {
    text="Failing systems are model-checked (bmc, and pdr with its BMC fallback) several times under different seeded answer policies of the simulated solver (which model, don't-care values, print forms); every returned witness is replayed in an independent reference simulator: names/order, init expressions, constraints at every step, exact set of failed bad states.",
    note=TRUST, technique=SIM+"oracle = witness replay in the reference transition-system semantics", ref="4/C03"),
  "C04": dict(level="exploration",
-   text="The public unrolling API (init_at(0) / init_at(j>0), unroll x n) and whole BMC/PDR conversations are driven over the real SmtLibSolverCtx to a strict SMT-LIB 2.6 reference solver that rejects redefinition, use before definition, ill-sorted terms and out-of-mode commands (wire monitor on every message); faithfulness is checked by evaluating the per-step symbols out of band under random concrete executions of the system.",
+   text="The public unrolling API (init_at(0) / init_at(j>0), unroll x n, also on an encoder object that was used before and whose solver was restarted) and whole BMC/PDR conversations are driven over the real SmtLibSolverCtx to a strict SMT-LIB 2.6 reference solver that rejects redefinition, use before definition, ill-sorted terms and out-of-mode commands (wire monitor on every message); faithfulness is checked by evaluating the per-step symbols out of band under random concrete executions of the system.",
    note=TRUST+" `(as const ...)` (an extension) rejected by a profile is treated as a capability question (C02), not as ill-formedness.", technique=SIM+"invariant on every wire message (strict reference solver) + history check against reference executions", ref="4/C04"),
  "C10": dict(level="exploration",
    text="Bit-vector systems are run through the real pdr engine (incl. solver restart and BMC fallback) under seeded solver choices: which model becomes a cube, which unsat core (minimal by randomised deletion / full / in between; shuffled; re-spelled) drives generalisation, both generalisation modes, check-sat-assuming and push/pop styles; verdicts are compared with full-fixpoint explicit-state reachability and any error/Unknown/panic/deadlock/step-budget overrun is a violation.",
    note=TRUST, technique=SIM+"oracle = full-fixpoint explicit-state reachability; liveness as a step bound on transport events", ref="4/C10"),
  "C07": dict(level="exploration",
-   text="sim::Interpreter is driven as a stateful server by seeded operation histories (init zero/random, set, step, get of states/inputs/outputs/bads/constraints/next+init roots/named nodes/random sub-expressions, take_snapshot, restore_snapshot of any earlier id, re-init) on generated systems entered as btor2 text; after every operation it is compared with a reference model (map + independent evaluator; snapshots are clones), incl. seed determinism across histories and simulators.",
+   text="sim::Interpreter is driven as a stateful server by seeded operation histories (init zero/random, set, step, get of states/inputs/outputs/bads/constraints/next+init roots/named nodes/random sub-expressions, take_snapshot, restore_snapshot of any earlier id, re-init; simulator built with new or new_with_trace) on generated systems entered as btor2 text; after every operation it is compared with a reference model (map + independent evaluator; snapshots are clones of states and inputs), incl. seed determinism across histories and simulators.",
    note=TRUST, technique="deterministic simulation: seeded operation histories incl. snapshot/restore rollback against an executable reference model, checked operation by operation", ref="4/C07"),
  "C12": dict(level="exploration",
-   text="2..4 logical clients with seeded, statically typed programs of builder calls (symbols, strings, literals of widths 1..200 built by 9 computation routes, all operators, bursts of 10^4+ insertions) share one Context; the scheduler decides the interleaving of their calls; a shadow structural table is checked after every call and swept every 256 calls, and the equality pattern among all results must be the same under four interleavings.",
+   text="2..4 logical clients with seeded, statically typed programs of builder calls (symbols, strings, literals of widths 1..200 built by 12 computation routes through Context and through the Builder wrapper, every public constructor incl. the compound ones checked against their composition, bursts of 10^4+ insertions) share one Context; the scheduler decides the interleaving of their calls; a shadow structural table is checked after every call and swept every 256 calls, and the equality pattern among all results must be the same under four interleavings.",
    note="Trusts the shadow table and the read-back through ctx[ref]. Context needs &mut, so interleaving of whole calls is the only schedule that exists.", technique="deterministic simulation: seeded interleaving of logical clients on one shared context, reference model = shadow structural table, schedule-invariance check", ref="4/C12"),
  "C13": dict(level="exploration",
-   text="One Context, three long-lived servers (sparse-cache simplifier, dense-cache simplifier, fresh simplifier per request as sequential specification); 2..4 clients request simplification of batches from a pool with heavy sub-term sharing while the scheduler interleaves requests with construction of new pool members; per request: all three agree by reference, idempotent on shared and fresh instances, every answer repeated at the end; termination as a step bound of 10^6 rewrite-loop iterations through hook H2.",
+   text="One Context, three long-lived servers (sparse-cache simplifier, dense-cache simplifier, fresh simplifier per request as sequential specification); 2..4 clients request simplification of batches from a pool with heavy sub-term sharing while the scheduler interleaves requests with construction of new pool members; per request: all three agree by reference, idempotent on shared and fresh instances, every answer repeated at the end; the same roots as one batch through simplify_expressions and through simplify_single_expression; now and then one expression of tens of thousands of nodes; termination as a step bound of 10^6 rewrite-loop iterations through hook H2.",
    note="Trusts reference equality of hash-consed expressions. No normal form is demanded.", technique="deterministic simulation: seeded request/construction interleaving on shared caches, fresh instance as sequential specification, step-fuel liveness bound", ref="4/C13"),
  "C14": dict(level="exploration",
    text="(b) random model values of all sorts (Bool, widths 1..129, arrays incl. Bool index/data) in every print form solvers use are read through the real get_value path from a scripted solver with short reads/EINTR; (c) the same replies cut at random offsets followed by solver exit, and unbalanced variants through parse_expr/parse_command, must yield Err (never a value, panic or hang); (a) the command logs of simulated BMC/PDR conversations are read back with read_command through a chunking reader and compared command by command (kind, symbol, sort, value under 16 random assignments) with the reference solver's independent parse.",
    note=TRUST+" Scoped: 'reader inverts writer' is decided on writer output that crosses the simulated wire, not on all expressions the writer could emit.", technique="deterministic simulation: scripted solver peer with seeded print forms and stream truncation, wire-log replay through a chunking reader, independent parser + evaluator as reference", ref="4/C14"),
  "C15": dict(level="fault_enumeration",
-   text="For every sampled BMC/PDR conversation, every response-bearing point (all if <= 48) x every lossy fault kind (error replies of all lengths and shapes, unknown, empty, truncated+exit, exit before/after the command, exit after the reply, garbage, spawn failure) is replayed as a run with exactly that one fault against the fault-free twin of the same seed; oracle: no panic/deadlock/livelock, no Success/Fail verdict resting on a faulty answer, solver error text carried in full, ineffective faults and benign perturbations change nothing.",
-   note=TRUST+" Stalled-but-alive and lying solvers are outside the fault model. Enumeration is exhaustive per conversation, not for the property.", technique="deterministic simulation with fault injection: fault point x fault kind enumeration over simulated solver conversations, clean-twin differential oracle, step-bounded hang detection", ref="4/C15"), "C18": dict(level="fault_enumeration",
-   text="Valid btor2 files (shipped inputs and generator output) are stored and hit by storage faults: for files of <= 60 lines every single line-level fault (line lost, duplicated, swapped, torn tail at each line boundary) is enumerated, plus seeded sequences of 1..4 faults (bit flip, byte deleted/inserted, torn tail, line lost/duplicated/swapped/moved, token missing/corrupted with other ids, negations, huge numbers, non-ASCII, other operators); parse_str must return None or a system, never panic except for documented unsupported operators, and every accepted system is deep-checked (types node by node, init/next/bad/constraint types, declared symbols).",
-   note="Trusts patronus' own per-node type_check as the definition of 'type-checks'. Faults are applied to the bytes handed to parse_str (no stream seam exists). Non-termination of the reader would hang the check (no hook in the reader loop).", technique="deterministic simulation with fault injection on stored input: enumeration of single line-level faults + seeded fault sequences, accept/reject oracle with deep well-formedness check", ref="4/C18"),
+   text="For every sampled BMC/PDR conversation, every response-bearing point (all if <= 48) x every lossy fault kind (error replies of all lengths and shapes, unknown, empty, truncated+exit, exit before/after the command, exit after the reply, garbage, spawn failure) is replayed as a run with exactly that one fault against the fault-free twin of the same seed; solver-session API programs with restarts additionally run under sequences of two or more faults (one per session, spawn failures included); oracle: no panic/deadlock/livelock, no Success/Fail verdict resting on a faulty answer, solver error text carried in full, ineffective faults and benign perturbations change nothing, a restarted session answers as the fault-free run does, and no answer is returned once the solver process is dead.",
+   note=TRUST+" Stalled-but-alive and lying solvers are outside the fault model. Enumeration is exhaustive per conversation, not for the property.", technique="deterministic simulation with fault injection: fault point x fault kind enumeration (and seeded fault sequences across restarts) over simulated solver conversations, clean-twin differential oracle, step-bounded hang detection", ref="4/C15"), "C18": dict(level="fault_enumeration",
+   text="Valid btor2 files (shipped inputs and generator output) are stored and hit by storage faults: for files of <= 60 lines every single line-level fault (line lost, duplicated, swapped, torn tail at each line boundary) is enumerated, plus seeded sequences of 1..4 faults (bit flip, byte deleted/inserted, torn tail, line lost/duplicated/swapped/moved, token missing/corrupted with other ids, negations, huge numbers, non-ASCII, other operators); parse_str (parse_file_with_ctx on a scratch file when the bytes are not valid UTF-8) must return None or a system, never panic except for documented unsupported operators, and every accepted system is deep-checked (types node by node, init/next/bad/constraint types, declared symbols).",
+   note="Trusts patronus' own per-node type_check as the definition of 'type-checks'. Faults are applied to the stored bytes, which reach the reader through parse_str, or through parse_file_with_ctx when they are not valid UTF-8. Non-termination of the reader would hang the check (no hook in the reader loop).", technique="deterministic simulation with fault injection on stored input: enumeration of single line-level faults + seeded fault sequences, accept/reject oracle with deep well-formedness check", ref="4/C18"),
  "C20": dict(level="exploration",
    text="One shared GuardCtx and Context; seeded histories of new / apply_bin_op / apply_ite / coalesce / import_into_guard / expr_to_guard over a small alphabet in which equal values recur in every order; after every operation (hook H3) the summary is compared with a reference table over all 256 valuations of the symbols: exactly one guard holds per valuation and its value is the operation applied to the argument values.",
    note="Trusts the independent evaluator for Boolean conditions and BDD terminals. Exhaustive over valuations, sampled over histories.", technique="deterministic simulation: seeded operation histories on a shared BDD manager against a total-function table model, invariant checked after every operation", ref="4/C20"),
